@@ -28,7 +28,7 @@ impl<S: ShortGroupSignatureScheme> PresentationBuilder<S> for RangeBuilder<'_> {
         let mut transcript = Transcript::new(b"credx range proof");
         transcript.append_message(b"challenge", &challenge.to_be_bytes());
 
-        let blinder = self.commitment_builder.b;
+        let blinder = self.commitment_builder.blinding;
 
         match (self.adjusted_upper, self.adjusted_lower) {
             (Some(upper), Some(lower)) => {
@@ -151,7 +151,7 @@ impl<'a> RangeBuilder<'a> {
         );
         transcript.append_u64(b"range proof bits", 64);
 
-        let blind = commitment_builder.statement.blinder_generator * commitment_builder.b;
+        let blind = commitment_builder.statement.blinder_generator * commitment_builder.blinding;
         let mut l = None;
         let mut u = None;
         // negation zero centers in the positive range
